@@ -50,17 +50,8 @@ def is_sorted(topology: Topology) -> bool:
     In a sorted topology, parent samples should appear before any child
     samples.
     """
-    flag = True
-
-    def enter(idx: int, parent: int | None) -> int:
-        nonlocal flag
-        if parent is not None and idx < parent:
-            flag = False
-
-        return idx
-
-    traverse(topology=topology, enter=enter)
-    return flag
+    ids, pids = np.asarray(topology[0]), np.asarray(topology[1])
+    return bool(np.all(pids < ids))  # pid of roots is -1
 
 
 def has_cyclic(topology: Topology) -> bool:
